@@ -870,6 +870,63 @@ def _job_extra(a):
                         d.addErrback(lambda f: None)      # end of the experiment: silence
                     else:
                         d.exception()
+    # ---- (4) "retry once": the errback of a pending request issues a new request while the session
+    # is being torn down (Twisted: synchronously inside the teardown).  Whatever happens to that new
+    # request - refused at once, or sent and failed when the transport goes - it must not stay
+    # pending for ever, and the teardown must complete (leave fired, transport closed)
+    for end in ("router-goodbye", "leave-then-router-reply", "lost"):
+        for kind in ("call", "publish", "subscribe", "register"):
+            l1 = H.L1()
+            l1.join()
+            s, tr = l1.session, l1.transport
+            d1 = s.call("com.p.first", 1)
+            inner = {}
+
+            def retry(arg, _kind=kind, _s=s, _inner=inner, _l1=l1):
+                def issue():
+                    if _kind == "call":
+                        return _s.call("com.p.retry", 2)
+                    if _kind == "publish":
+                        from autobahn.wamp.types import PublishOptions
+                        return _s.publish("com.t.retry", 2, options=PublishOptions(acknowledge=True))
+                    if _kind == "subscribe":
+                        return _s.subscribe(lambda *x, **y: None, "com.t.retry")
+                    return _s.register(lambda *x, **y: None, "com.p.retry")
+                r = _l1.api(issue)
+                _inner["r"] = r
+                if r[0] == "ok" and r[1] is not None:
+                    _l1.track("retry", r[1])
+                return None
+            if l1.fw == "tx":
+                d1.addErrback(retry)
+            else:
+                d1.add_done_callback(lambda f: (f.exception(), retry(None))[1])
+            l1.settle()
+            r0 = len(s.rec)
+            if end == "leave-then-router-reply":
+                l1.api(s.leave)
+                l1.settle()
+                exc = l1.deliver(M.Goodbye("wamp.close.goodbye_and_out"))
+            elif end == "router-goodbye":
+                exc = l1.deliver(M.Goodbye("wamp.close.system_shutdown"))
+            else:
+                exc = l1.lose(False)
+            l1.settle()
+            if not l1.closed:
+                l1.lose(True)          # the transport goes after the session's close() request
+                l1.settle()
+            n += 1
+            label = "%s, errback of a pending call issues %s()" % (end, kind)
+            if exc is not None:
+                bad("escape-at-session-end", "%s: %r" % (label, exc))
+            cbs = [x[0] for x in s.rec[r0:]]
+            if "onLeave" not in cbs or "onDisconnect" not in cbs:
+                bad("teardown-incomplete", "%s: callbacks %s" % (label, cbs))
+            if "r" not in inner:
+                bad("pending-not-failed", "%s: the first call was never failed" % label)
+            elif inner["r"][0] == "ok" and "retry" in l1.futs and l1.fstate("retry")[0] == "pending":
+                bad("reentrant-request-pending-forever", "%s: the request issued from the errback is still "
+                    "pending after leave and disconnect (callbacks %s)" % (label, cbs))
     return {"evals": n, "viol": viol, "stats": {"extra_execs": n, "nontrivial": n, "execs": n},
             "samples": [{"kind": "extra", "cases": n}]}
 
